@@ -1,4 +1,5 @@
 import AlgoVerif.Proofs.C14Dijkstra
+import AlgoVerif.Proofs.C14Mst
 /-!
 # C14 proofs — eager Prim (`MinimumSpanningTree`) builds a spanning forest
 
@@ -31,6 +32,16 @@ theorem VArc.mono {g : Graph} {m m' : MST} (hv : ∀ x, Vis m.visited x → Vis 
   · exact Or.inl (h.mono hv hp)
   · exact Or.inr (h.mono hv hp)
 
+/-- the rank certificate of the parent links: ranks bound, distinct, decreasing towards the parent, and every
+parent edge is a lightest stored edge between the vertices ranked before its child and the others -/
+def ForestOK (g : Graph) (m : MST) : Prop :=
+  ∃ (rank : Nat → Nat) (c : Nat),
+    (∀ w, Vis m.visited w → rank w < c) ∧
+    (∀ x y, Vis m.visited x → Vis m.visited y → rank x = rank y → x = y) ∧
+    (∀ w p, VLink g m w p → Vis m.visited p ∧ rank p < rank w) ∧
+    (∀ w p, VLink g m w p → ∀ f a b, g.StoredEdge f → Joins f a b → Vis m.visited a → rank a < rank w →
+      (¬ Vis m.visited b ∨ rank w ≤ rank b) → (m.par w).w ≤ f.w)
+
 structure MBase (g : Graph) (m : MST) : Prop where
   vsz : m.visited.size = g.n
   esz : m.edgeTo.size = g.n
@@ -44,14 +55,13 @@ structure RInv (g : Graph) (r : Nat) (O : Array Bool) (m : MST) (cur : Option (N
   oldc : ∀ x, Vis O x → ∀ y, g.HasArc x y → Vis O y
   rnew : ¬ Vis O r
   keys : ∀ w k, m.pq.ky w = some k → ¬ Vis m.visited w ∧ m.dist w = some k ∧
-    ((w = r ∧ m.par w = Edge.zero) ∨ (m.par w ≠ Edge.zero ∧ ∃ p, Vis m.visited p ∧ ¬ Vis O p ∧
+    ((w = r ∧ m.par w = Edge.zero) ∨ (m.par w ≠ Edge.zero ∧ (m.par w).w = k ∧ ∃ p, Vis m.visited p ∧ ¬ Vis O p ∧
       Joins (m.par w) w p ∧ g.HasEdge p w (m.par w)))
   reached : ∀ w d, m.dist w = some d → Vis m.visited w ∨ m.pq.ky w = some d
   conn : ∀ w, Vis m.visited w → ¬ Vis O w → Reach (VArc g m) w r
   closed : ∀ w, Vis m.visited w → ¬ Vis O w → ∀ x ∈ g.adj.getD w [],
-    (∀ d, cur = some (w, d) → x ∈ d) → Vis m.visited x.to ∨ (m.pq.ky x.to).isSome
-  forest : ∃ (rank : Nat → Nat) (c : Nat), (∀ w, Vis m.visited w → rank w < c) ∧
-    ∀ w p, VLink g m w p → Vis m.visited p ∧ rank p < rank w
+    (∀ d, cur = some (w, d) → x ∈ d) → Vis m.visited x.to ∨ ∃ k, m.pq.ky x.to = some k ∧ k ≤ x.e.w
+  forest : ForestOK g m
   oldconn : ∀ x y, Vis O x → Vis O y → Reach g.HasArc x y → Reach (VArc g m) x y
   links : ∀ w, Vis m.visited w → m.par w ≠ Edge.zero → ∃ p, VLink g m w p
   zero : ∀ w, ¬ Vis m.visited w → m.pq.ky w = none → m.par w = Edge.zero
@@ -107,7 +117,8 @@ theorem primInner_spec (w : Nat) :
       getD_of_lt _ _ (by rw [hin.base.vsz]; exact hyn)
     -- extending `done` by an arc whose head is visited or queued
     have hext : ∀ m' : MST, RInv g r O m' (some (w, done)) →
-        (Vis m'.visited x.to ∨ (m'.pq.ky x.to).isSome) → RInv g r O m' (some (w, done ++ [x])) := by
+        (Vis m'.visited x.to ∨ ∃ k, m'.pq.ky x.to = some k ∧ k ≤ x.e.w) →
+        RInv g r O m' (some (w, done ++ [x])) := by
       intro m' hi hx
       refine { hi with closed := ?_ }
       intro v hv hno y hy hcur
@@ -172,7 +183,7 @@ theorem primInner_spec (w : Nat) :
               rw [hdist, hpar]
               by_cases e : v = x.to
               · simp only [e, if_true] at hk ⊢
-                refine ⟨hnv, hk, Or.inr ⟨?_, w, hwv, hwo, ?_, ?_⟩⟩
+                refine ⟨hnv, hk, Or.inr ⟨?_, Option.some.inj hk, w, hwv, hwo, ?_, ?_⟩⟩
                 · intro ez
                   have h1 : x.e.a = x.e.b := by rw [ez]; rfl
                   unfold Joins at hj; omega
@@ -190,16 +201,22 @@ theorem primInner_spec (w : Nat) :
             conn := fun v hv hno => (hin.conn v hv hno).mono (fun _ _ h => hvm h)
             closed := by
               intro v hv hno y hy hcur
-              rcases hin.closed v hv hno y hy hcur with h | h
+              rcases hin.closed v hv hno y hy hcur with h | ⟨k, h1, h2⟩
               · exact Or.inl h
               · right
                 rw [hky]
-                split
-                · simp
-                · exact h
+                by_cases e : y.to = x.to
+                · simp only [e, if_true]
+                  rw [e] at h1
+                  exact ⟨x.e.w, rfl, by have := hle k h1; omega⟩
+                · simp only [e, if_false]
+                  exact ⟨k, h1, h2⟩
             forest := by
-              obtain ⟨rank, c, f1, f2⟩ := hin.forest
-              exact ⟨rank, c, f1, fun a b h => f2 a b (hlm h)⟩
+              obtain ⟨rank, c, f1, f2, f3, f4⟩ := hin.forest
+              refine ⟨rank, c, f1, f2, fun a b h => f3 a b (hlm h), ?_⟩
+              intro a b h f a' b' hs hj ha' hr hb'
+              rw [hpv a h.1]
+              exact f4 a b (hlm h) f a' b' hs hj ha' hr hb'
             oldconn := fun a b ha hb hr => (hin.oldconn a b ha hb hr).mono (fun _ _ h => hvm h)
             links := by
               intro v hv hne
@@ -222,7 +239,7 @@ theorem primInner_spec (w : Nat) :
                 split
                 · simp
                 · exact h }
-        have hq : (m'.pq.ky x.to).isSome := by rw [hky]; simp
+        have hq : ∃ k, m'.pq.ky x.to = some k ∧ k ≤ x.e.w := ⟨x.e.w, by rw [hky]; simp, Int.le_refl _⟩
         obtain ⟨m2, k1, k2, k3⟩ := ih (done ++ [x]) m' hadj' (hext m' hin' (Or.inr hq)) hwv hwo
         refine ⟨m2, ?_, k2, k3⟩
         rw [primInner, hunv, hgd]
@@ -231,13 +248,15 @@ theorem primInner_spec (w : Nat) :
         exact k1
       · -- not better: x.to is already queued
         have hnlt : ltDist x.e.w (m.dist x.to) = false := by simpa using hlt
-        have hq : (m.pq.ky x.to).isSome := by
+        have hq : ∃ k, m.pq.ky x.to = some k ∧ k ≤ x.e.w := by
           cases hd : m.dist x.to with
           | none => rw [hd] at hnlt; simp [ltDist] at hnlt
           | some d =>
+            rw [hd] at hnlt
+            simp [ltDist] at hnlt
             rcases hin.reached _ d hd with h | h
             · exact absurd h hnv
-            · rw [h]; rfl
+            · exact ⟨d, h, hnlt⟩
         obtain ⟨m2, k1, k2, k3⟩ := ih (done ++ [x]) m hadj' (hext m hin (Or.inr hq)) hwv hwo
         refine ⟨m2, ?_, k2, k3⟩
         rw [primInner, hunv, hgd]
@@ -270,7 +289,7 @@ theorem primLoop_spec :
     by_cases hemp : m.pq.isEmpty = true
     · exact ⟨m, by simp [primLoop, hemp], hinv, hemp, fun _ h => h⟩
     · have hne : m.pq.isEmpty = false := by simpa using hemp
-      obtain ⟨pq', w, kw, e1, hv1, hwn, hkw, _, hupd⟩ := delete_spec hinv.base.hv hne
+      obtain ⟨pq', w, kw, e1, hv1, hwn, hkw, hmin, hupd⟩ := delete_spec hinv.base.hv hne
       obtain ⟨hnv, hdw, hsrc⟩ := hinv.keys w kw hkw
       have hunv : m.visited[w]? = some false := by
         rcases vis_or_false (by rw [hinv.base.vsz]; exact hwn : w < m.visited.size) with h | h
@@ -291,7 +310,7 @@ theorem primLoop_spec :
       have hvm : ∀ {a b}, VArc g m a b → VArc g m1 a b := fun h => h.mono hVm (fun _ _ => rfl)
       -- the link of w to its parent (if w is not the root)
       have hwlink : (w = r ∧ m.par w = Edge.zero) ∨ ∃ p, VLink g m1 w p ∧ Vis m.visited p ∧ ¬ Vis O p := by
-        rcases hsrc with h | ⟨h1, p, h2, h3, h4, h5⟩
+        rcases hsrc with h | ⟨h1, _, p, h2, h3, h4, h5⟩
         · exact Or.inl h
         · exact Or.inr ⟨p, ⟨hVw, h1, h4, h5⟩, h2, h3⟩
       have hin : RInv g r O m1 (some (w, [])) :=
@@ -313,9 +332,9 @@ theorem primLoop_spec :
               rcases hV1 v h with e | h'
               · exact hvw e
               · exact k1 h'
-            · rcases k3 with h | ⟨h1, p, h2, h3, h4, h5⟩
+            · rcases k3 with h | ⟨h1, h0, p, h2, h3, h4, h5⟩
               · exact Or.inl h
-              · exact Or.inr ⟨h1, p, hVm p h2, h3, h4, h5⟩
+              · exact Or.inr ⟨h1, h0, p, hVm p h2, h3, h4, h5⟩
           reached := by
             intro v d hd
             by_cases hvw : v = w
@@ -344,11 +363,11 @@ theorem primLoop_spec :
                 · by_cases hxw : x.to = w
                   · rw [hxw]; exact Or.inl hVw
                   · right
-                    show (pq'.ky x.to).isSome
-                    rw [hky _ hxw]; exact h1
+                    obtain ⟨k, k1, k2⟩ := h1
+                    exact ⟨k, by show pq'.ky x.to = _; rw [hky _ hxw]; exact k1, k2⟩
           forest := by
-            obtain ⟨rank, c, f1, f2⟩ := hinv.forest
-            refine ⟨fun z => if z = w then c else rank z, c + 1, ?_, ?_⟩
+            obtain ⟨rank, c, f1, f2, f3, f4⟩ := hinv.forest
+            refine ⟨fun z => if z = w then c else rank z, c + 1, ?_, ?_, ?_, ?_⟩
             · intro v hv
               by_cases e : v = w
               · simp [e]
@@ -356,6 +375,23 @@ theorem primLoop_spec :
                 rcases hV1 v hv with e' | h
                 · exact absurd e' e
                 · have := f1 v h; omega
+            · intro x y hx hy hxy
+              by_cases ex : x = w <;> by_cases ey : y = w
+              · rw [ex, ey]
+              · simp only [ex, ey, if_true, if_false] at hxy
+                rcases hV1 y hy with e' | h
+                · exact absurd e' ey
+                · have := f1 y h; omega
+              · simp only [ex, ey, if_true, if_false] at hxy
+                rcases hV1 x hx with e' | h
+                · exact absurd e' ex
+                · have := f1 x h; omega
+              · simp only [ex, ey, if_false] at hxy
+                rcases hV1 x hx with e' | h1
+                · exact absurd e' ex
+                · rcases hV1 y hy with e' | h2
+                  · exact absurd e' ey
+                  · exact f2 x y h1 h2 hxy
             · intro a p hl
               by_cases e : a = w
               · subst e
@@ -371,11 +407,68 @@ theorem primLoop_spec :
                   rcases hV1 a hl.1 with e' | h
                   · exact absurd e' e
                   · exact h
-                obtain ⟨k1, k2⟩ := f2 a p ⟨ha, hl.2⟩
+                obtain ⟨k1, k2⟩ := f3 a p ⟨ha, hl.2⟩
                 have hpw : p ≠ w := fun e' => hnv (e' ▸ k1)
                 refine ⟨hVm _ k1, ?_⟩
                 simp only [e, hpw, if_false]
                 exact k2
+            · intro a p hl f a' b' hs hj ha' hr hb'
+              by_cases e : a = w
+              · -- the vertex visited now: its parent edge carried the least key
+                subst e
+                simp only [if_true] at hr hb'
+                rcases hsrc with h | ⟨_, hkey, _⟩
+                · exact absurd h.2 hl.2.1
+                · show (m.par a).w ≤ f.w
+                  rw [hkey]
+                  -- a' was visited before; b' is a or still unvisited
+                  have ha'w : a' ≠ a := by
+                    intro e'; rw [e'] at hr; simp at hr
+                  simp only [ha'w, if_false] at hr
+                  have ha'm : Vis m.visited a' := by
+                    rcases hV1 a' ha' with e' | h
+                    · exact absurd e' ha'w
+                    · exact h
+                  have hb'm : ¬ Vis m.visited b' := by
+                    intro hb
+                    have hbw : b' ≠ a := fun e' => hnv (e' ▸ hb)
+                    rcases hb' with h | h
+                    · exact h (hVm b' hb)
+                    · simp only [hbw, if_false] at h
+                      have := f1 b' hb; omega
+                  have hedge : g.HasEdge a' b' f := by
+                    rcases Joins.same hj (Joins.ends f) with ⟨rfl, rfl⟩ | ⟨rfl, rfl⟩
+                    · exact hs.1
+                    · exact hs.2
+                  have ha'o : ¬ Vis O a' := by
+                    intro ho
+                    exact hb'm (hinv.oldv b' (hinv.oldc a' ho b' ⟨⟨b', f⟩, hedge, rfl⟩))
+                  rcases hinv.closed a' ha'm ha'o ⟨b', f⟩ hedge (fun d hd => by simp at hd) with h | ⟨k, k1, k2⟩
+                  · exact absurd h hb'm
+                  · have := hmin b' k k1
+                    have k2' : k ≤ f.w := k2
+                    show kw ≤ f.w
+                    omega
+              · have ha : Vis m.visited a := by
+                  rcases hV1 a hl.1 with e' | h
+                  · exact absurd e' e
+                  · exact h
+                simp only [e, if_false] at hr hb'
+                have hra := f1 a ha
+                have ha'w : a' ≠ w := by
+                  intro e'; rw [e'] at hr; simp at hr; omega
+                simp only [ha'w, if_false] at hr
+                have ha'm : Vis m.visited a' := by
+                  rcases hV1 a' ha' with e' | h
+                  · exact absurd e' ha'w
+                  · exact h
+                refine f4 a p ⟨ha, hl.2⟩ f a' b' hs hj ha'm hr ?_
+                by_cases hbw : b' = w
+                · rw [hbw]; exact Or.inl hnv
+                · simp only [hbw, if_false] at hb'
+                  rcases hb' with h | h
+                  · exact Or.inl (fun hb => h (hVm b' hb))
+                  · exact Or.inr h
           oldconn := fun a b ha hb hr => (hinv.oldconn a b ha hb hr).mono (fun _ _ h => hvm h)
           links := by
             intro v hv hne
@@ -425,8 +518,7 @@ structure MInv (g : Graph) (m : MST) : Prop where
   pqempty : ∀ j, m.pq.ky j = none
   closedV : ∀ x, Vis m.visited x → ∀ y, g.HasArc x y → Vis m.visited y
   conn : ∀ x y, Vis m.visited x → Vis m.visited y → Reach g.HasArc x y → Reach (VArc g m) x y
-  forest : ∃ (rank : Nat → Nat) (c : Nat), (∀ w, Vis m.visited w → rank w < c) ∧
-    ∀ w p, VLink g m w p → Vis m.visited p ∧ rank p < rank w
+  forest : ForestOK g m
   links : ∀ w, Vis m.visited w → m.par w ≠ Edge.zero → ∃ p, VLink g m w p
   reachedV : ∀ w d, m.dist w = some d → Vis m.visited w
   zeroU : ∀ w, ¬ Vis m.visited w → m.par w = Edge.zero
@@ -493,7 +585,7 @@ theorem prim_spec (m : MST) (hinv : MInv g m) (s : Nat) (hs : s < g.n) (hunv : m
     by_cases ho : Vis m.visited x
     · exact hr.oldv y (hinv.closedV x ho y hy)
     · obtain ⟨a, ha, rfl⟩ := hy
-      rcases hr.closed x hx ho a ha (fun d hd => by simp at hd) with h | h
+      rcases hr.closed x hx ho a ha (fun d hd => by simp at hd) with h | ⟨k, h, _⟩
       · exact h
       · rw [hallK] at h; simp at h
   have hold_closed : ∀ x y, Vis m.visited x → Reach g.HasArc x y → Vis m.visited y :=
@@ -575,6 +667,8 @@ theorem mst_spec :
       closedV := fun x hx => absurd hx vis_replicate_false
       conn := fun x _ hx => absurd hx vis_replicate_false
       forest := ⟨fun _ => 0, 0, fun w hw => absurd hw vis_replicate_false,
+                 fun x _ hx => absurd hx vis_replicate_false,
+                 fun w p h => absurd h.1 vis_replicate_false,
                  fun w p h => absurd h.1 vis_replicate_false⟩
       links := fun w hw => absurd hw vis_replicate_false
       reachedV := by intro w d hd; rw [hdist0] at hd; simp at hd
@@ -595,8 +689,8 @@ theorem mst_spec :
   · intro w hne
     obtain ⟨p, hp⟩ := hinv.links w (hvis w (hlt w hne)) hne
     exact ⟨p, hp.2⟩
-  · obtain ⟨rank, c, _, f2⟩ := hinv.forest
-    exact ⟨rank, fun w p h => (f2 w p ⟨hvis w (hlt w h.1), h⟩).2⟩
+  · obtain ⟨rank, c, _, _, f3, _⟩ := hinv.forest
+    exact ⟨rank, fun w p h => (f3 w p ⟨hvis w (hlt w h.1), h⟩).2⟩
   · intro u v hu' hv'
     constructor
     · intro h
@@ -611,6 +705,241 @@ theorem mst_spec :
       rcases hab with h1 | h1
       · exact hsym _ _ (key a b h1)
       · exact key b a h1
+
+end
+
+end AlgoVerif.C14
+
+namespace AlgoVerif.C14
+
+theorem mem_edges {m : MST} {e : Edge} :
+    e ∈ m.edges ↔ e ≠ Edge.zero ∧ ∃ w, w < m.edgeTo.size ∧ m.par w = e := by
+  unfold MST.edges
+  rw [List.mem_filter]
+  constructor
+  · rintro ⟨h1, h2⟩
+    refine ⟨by simpa using h2, ?_⟩
+    obtain ⟨i, hi, he⟩ := List.mem_iff_getElem.1 h1
+    have hi' : i < m.edgeTo.size := by simpa using hi
+    refine ⟨i, hi', ?_⟩
+    unfold MST.par Array.getD
+    simp only [hi', dite_true]
+    simpa using he
+  · rintro ⟨h1, w, hw, he⟩
+    refine ⟨?_, by simpa using h1⟩
+    apply List.mem_iff_getElem.2
+    refine ⟨w, by simpa using hw, ?_⟩
+    unfold MST.par Array.getD at he
+    simp only [hw, dite_true] at he
+    simpa using he
+
+theorem wsum_edges (m : MST) : m.weight = wsum m.edges := by
+  unfold MST.weight wsum
+  have : ∀ (l : List Edge) (acc : Int), l.foldl (fun acc e => acc + e.w) acc = acc + (l.map (·.w)).sum := by
+    intro l
+    induction l with
+    | nil => intro acc; simp
+    | cons e r ih => intro acc; simp only [List.foldl_cons, List.map_cons, List.sum_cons]; rw [ih]; omega
+  rw [this]; simp
+
+section
+
+variable {g : Graph} (hg : g.WF) (hu : g.UWF) (hsym : g.Symmetric)
+include hg hu hsym
+
+/-- the final state of `newMinimumSpanningTree` -/
+theorem mst_final : ∃ m, g.minimumSpanningTree = .ok m ∧ MInv g m ∧ ∀ w, w < g.n → Vis m.visited w := by
+  let m0 : MST := { visited := Array.replicate g.n false, edgeTo := Array.replicate g.n Edge.zero,
+                    distTo := Array.replicate g.n none, pq := IHeap.new g.n }
+  have hpar0 : ∀ w, m0.par w = Edge.zero := by
+    intro w
+    simp only [m0, MST.par]
+    rw [getD_eq, Array.getElem?_replicate]; split <;> rfl
+  have hdist0 : ∀ w, m0.dist w = none := by
+    intro w
+    simp only [m0, MST.dist]
+    rw [getD_eq, Array.getElem?_replicate]; split <;> rfl
+  have hinv0 : MInv g m0 :=
+    { base := ⟨by simp [m0], by simp [m0], by simp [m0], hinv_new g.n⟩
+      pqempty := ky_new g.n
+      closedV := fun x hx => absurd hx vis_replicate_false
+      conn := fun x _ hx => absurd hx vis_replicate_false
+      forest := ⟨fun _ => 0, 0, fun w hw => absurd hw vis_replicate_false,
+                 fun x _ hx => absurd hx vis_replicate_false,
+                 fun w p h => absurd h.1 vis_replicate_false,
+                 fun w p h => absurd h.1 vis_replicate_false⟩
+      links := fun w hw => absurd hw vis_replicate_false
+      reachedV := by intro w d hd; rw [hdist0] at hd; simp at hd
+      zeroU := fun w _ => hpar0 w }
+  obtain ⟨m, e1, hinv, _, hall⟩ :=
+    mstOuter_spec hg hu hsym (List.range g.n) (fun v hv => List.mem_range.1 hv) m0 hinv0
+  exact ⟨m, e1, hinv, fun w hw => hall w (List.mem_range.2 hw)⟩
+
+/-- **the forest of `MinimumSpanningTree` has minimum weight among all spanning forests** -/
+theorem mst_minimum (hst : g.UStored) :
+    ∃ m, g.minimumSpanningTree = .ok m ∧ IsSpanningForest g m.edges ∧
+      ∀ F, IsSpanningForest g F → m.weight ≤ wsum F := by
+  obtain ⟨m, e1, hinv, hvis⟩ := mst_final hg hu hsym
+  obtain ⟨rank, c, f1, f2, f3, f4⟩ := hinv.forest
+  have hlt : ∀ w, m.par w ≠ Edge.zero → w < g.n := by
+    intro w hne
+    by_cases h : w < g.n
+    · exact h
+    · exfalso
+      apply hne
+      unfold MST.par Array.getD
+      have : ¬ w < m.edgeTo.size := by rw [hinv.base.esz]; exact h
+      simp [this]
+  -- a stored edge has both ends among the vertices
+  have hends : ∀ f, g.StoredEdge f → f.a < g.n ∧ f.b < g.n := by
+    intro f hs
+    have : g.HasArc f.a f.b := ⟨⟨f.b, f⟩, hs.1, rfl⟩
+    exact ⟨hg.src_lt this, hg.arc_lt this⟩
+  have hvl : ∀ w p, TLink g m w p → VLink g m w p := fun w p h => ⟨hvis w (hlt w h.1), h⟩
+  let Lk : Nat → Nat → Edge → Prop := fun w p e => TLink g m w p ∧ m.par w = e
+  have hmemT : ∀ w p e, Lk w p e → e ∈ m.edges := by
+    intro w p e ⟨hl, he⟩
+    rw [mem_edges]
+    exact ⟨he ▸ hl.1, w, by rw [hinv.base.esz]; exact hlt w hl.1, he⟩
+  have hstored : ∀ w p e, Lk w p e → g.StoredEdge e := by
+    intro w p e ⟨hl, he⟩
+    have := hst p ⟨w, m.par w⟩ hl.2.2
+    exact he ▸ this
+  have hlink : ∀ e ∈ m.edges, ∃ w p, Lk w p e := by
+    intro e he
+    obtain ⟨hne, w, hw, hp⟩ := mem_edges.1 he
+    have hwn : w < g.n := by rw [← hinv.base.esz]; exact hw
+    obtain ⟨p, hl⟩ := hinv.links w (hvis w hwn) (hp ▸ hne)
+    exact ⟨w, p, hl.2, hp⟩
+  -- tree arcs are edges of the list
+  have hT : ∀ a b, VArc g m a b → EAdj m.edges a b := by
+    intro a b hab
+    rcases hab with h | h
+    · exact ⟨m.par a, hmemT a b _ ⟨h.2, rfl⟩, h.2.2.1⟩
+    · exact ⟨m.par b, hmemT b a _ ⟨h.2, rfl⟩, h.2.2.1.symm⟩
+  have hspanT : ∀ f, g.StoredEdge f → EConn m.edges f.a f.b := by
+    intro f hs
+    obtain ⟨ha, hb⟩ := hends f hs
+    have : Reach g.HasArc f.a f.b := Reach.single ⟨⟨f.b, f⟩, hs.1, rfl⟩
+    exact (hinv.conn f.a f.b (hvis _ ha) (hvis _ hb) this).mono (fun a b h => hT a b h)
+  have hnodup : m.edges.Nodup := by
+    unfold MST.edges
+    have hp : List.Pairwise (fun a b : Edge => a ≠ Edge.zero → b ≠ Edge.zero → a ≠ b) m.edgeTo.toList := by
+      rw [List.pairwise_iff_getElem]
+      intro i j hi hj hij ha hb hab
+      have hi' : i < m.edgeTo.size := by simpa using hi
+      have hj' : j < m.edgeTo.size := by simpa using hj
+      have pi : m.par i = m.edgeTo.toList[i] := by
+        unfold MST.par Array.getD; simp [hi']
+      have pj : m.par j = m.edgeTo.toList[j] := by
+        unfold MST.par Array.getD; simp [hj']
+      have hin : i < g.n := by rw [← hinv.base.esz]; exact hi'
+      have hjn : j < g.n := by rw [← hinv.base.esz]; exact hj'
+      obtain ⟨p1, l1⟩ := hinv.links i (hvis i hin) (by rw [pi]; exact ha)
+      obtain ⟨p2, l2⟩ := hinv.links j (hvis j hjn) (by rw [pj]; exact hb)
+      have j1 : Joins (m.par i) i p1 := l1.2.2.1
+      have j2 : Joins (m.par i) j p2 := by
+        have := l2.2.2.1
+        rw [pj, ← hab, ← pi] at this
+        exact this
+      have r1 := (f3 i p1 l1).2
+      have r2 := (f3 j p2 l2).2
+      rcases j1.same j2 with ⟨e1', _⟩ | ⟨e1', e2'⟩
+      · omega
+      · subst e1'; subst e2'; omega
+    have := hp.filter (fun e => decide (e ≠ Edge.zero))
+    refine this.imp_of_mem ?_
+    intro a b ha hb h
+    have ha' := (List.mem_filter.1 ha).2
+    have hb' := (List.mem_filter.1 hb).2
+    exact h (by simpa using ha') (by simpa using hb')
+  have hcert : CutCert g.StoredEdge m.edges rank Lk :=
+    { nodup := hnodup
+      link := hlink
+      mem := by
+        intro w p e hl
+        exact ⟨hmemT w p e hl, hl.2 ▸ hl.1.2.1, hstored w p e hl, (f3 w p (hvl w p hl.1)).2⟩
+      inj := by
+        intro w p e w' p' e' hl hl' hr
+        have := f2 w w' (hvl w p hl.1).1 (hvl w' p' hl'.1).1 hr
+        subst this
+        rw [← hl.2, ← hl'.2]
+      bound := ⟨c, fun w p e hl => f1 w (hvl w p hl.1).1⟩
+      cut := by
+        intro w p e hl f a b hs hj hr hb
+        have := f4 w p (hvl w p hl.1) f a b hs hj (by
+          obtain ⟨ha, hb'⟩ := hends f hs
+          rcases hj.same (Joins.ends f) with ⟨rfl, rfl⟩ | ⟨rfl, rfl⟩
+          · exact hvis _ ha
+          · exact hvis _ hb') hr (Or.inr hb)
+        rw [hl.2] at this
+        exact this
+      span := hspanT }
+  refine ⟨m, e1, ⟨⟨hnodup, ?_⟩, ?_, hspanT⟩, ?_⟩
+  · -- acyclic: the ends of a tree edge are not connected by the other tree edges (ranks)
+    intro e he hcon
+    obtain ⟨w, p, hl⟩ := hlink e he
+    -- B = the vertices whose parent chain passes through w; it is closed under the other tree edges,
+    -- contains w, and cannot contain p (ranks decrease along parent links)
+    let Up : Nat → Prop := fun x => Reach (fun y q => ∃ e', Lk y q e') x w
+    have hup_rank : ∀ x, Up x → rank w ≤ rank x := by
+      intro x hx
+      have : ∀ a b, Reach (fun y q => ∃ e', Lk y q e') a b → rank b ≤ rank a := by
+        intro a b hab
+        induction hab with
+        | refl => exact Nat.le_refl _
+        | tail _ hstep ih =>
+          obtain ⟨e', hl'⟩ := hstep
+          have := (f3 _ _ (hvl _ _ hl'.1)).2
+          omega
+      exact this x w hx
+    have hclosed : ∀ a b, Up a → EAdj (m.edges.erase e) a b → Up b := by
+      intro a b ha ⟨e', he', hj'⟩
+      have hne : e' ≠ e := ((mem_erase_nodup hnodup).1 he').1
+      obtain ⟨y, q, hl'⟩ := hlink e' (erase_sub he')
+      have hjy : Joins e' y q := hl'.2 ▸ hl'.1.2.1
+      -- a walk from x to w that starts with a parent link: head form of Reach
+      have hhead : ∀ x, Up x → x = w ∨ ∃ q' e'', Lk x q' e'' ∧ Up q' := by
+        intro x hx
+        have : ∀ a b, Reach (fun y q => ∃ e', Lk y q e') a b → a = b ∨ ∃ q' e'', Lk a q' e'' ∧
+            Reach (fun y q => ∃ e', Lk y q e') q' b := by
+          intro a b hab
+          induction hab with
+          | refl => exact Or.inl rfl
+          | @tail u v _ hstep ih =>
+            rcases ih with rfl | ⟨q', e'', h1, h2⟩
+            · obtain ⟨e3, h3⟩ := hstep
+              exact Or.inr ⟨v, e3, h3, .refl _⟩
+            · exact Or.inr ⟨q', e'', h1, .tail h2 hstep⟩
+        exact this x w hx
+      rcases hj'.same hjy with ⟨rfl, rfl⟩ | ⟨rfl, rfl⟩
+      · -- a is the child: go up
+        rcases hhead a ha with rfl | ⟨q', e'', h1, h2⟩
+        · exfalso
+          apply hne
+          rw [← hl'.2, ← hl.2]
+        · have hq : q' = b := by
+            have j1 : Joins (m.par a) a q' := h1.1.2.1
+            have j2 : Joins (m.par a) a b := hl'.1.2.1
+            exact joins_fun j1 j2
+          rw [← hq]; exact h2
+      · -- a is the parent: b hangs below it
+        exact Reach.head ⟨e', hl'⟩ ha
+    have hp : Up p := Reach.closed (S := Up) hclosed
+      (by
+        have : Joins e w p := hl.2 ▸ hl.1.2.1
+        rcases this.same (Joins.ends e) with ⟨rfl, rfl⟩ | ⟨rfl, rfl⟩
+        · exact hcon
+        · exact hcon.symm) (.refl _)
+    have h1 := hup_rank p hp
+    have h2 := (f3 w p (hvl w p hl.1)).2
+    omega
+  · intro f hf
+    obtain ⟨w, p, hl⟩ := hlink f hf
+    exact hstored w p f hl
+  · intro F hF
+    rw [wsum_edges]
+    exact cut_rule_optimal hcert F hF.acyc hF.sub hF.span
 
 end
 
